@@ -90,6 +90,25 @@ theorem lookup_put_other (fs : FS) (t t' : Target) (c : Content) (h : Target.oth
   have h2 : ¬ (t.id = t'.id ∧ t.isPath = t'.isPath) := h
   simp [FS.put, FS.lookup, h2, lookup_erase_other fs t t' h]
 
+/-- a file is identified by `id` / `isPath` alone (not by the way a path is handed over) -/
+theorem lookup_congr (fs : FS) (t t' : Target) (h1 : t.id = t'.id) (h2 : t.isPath = t'.isPath) :
+    FS.lookup fs t = FS.lookup fs t' := by
+  induction fs with
+  | nil => rfl
+  | cons e r ih =>
+    obtain ⟨i, p, c⟩ := e
+    simp only [FS.lookup, h1, h2, ih]
+
+/-- re-writing the content a file already has changes no lookup -/
+theorem lookup_put_same (fs : FS) (t t' : Target) (c : Content) (h : FS.lookup fs t = some c) :
+    FS.lookup (FS.put fs t c) t' = FS.lookup fs t' := by
+  by_cases ho : Target.other t' t
+  · exact lookup_put_other fs t t' c ho
+  · have h2 : t.id = t'.id ∧ t.isPath = t'.isPath := by
+      unfold Target.other at ho
+      exact Classical.not_not.mp ho
+    rw [lookup_congr _ t' t h2.1.symm h2.2.symm, lookup_put_self, lookup_congr _ t' t h2.1.symm h2.2.symm, h]
+
 /-- the file system a save starts from once `remove_file` has run -/
 def cleared (fs : FS) (t : Target) (overwrite : Bool) : FS :=
   if overwrite then FS.erase fs t else fs
